@@ -188,6 +188,9 @@ func runCase(line string) (res string) {
 	if kind == "batch" {
 		return runBatch(line)
 	}
+	if kind == "hist" {
+		return runHist(line)
+	}
 	var call func() (geom.Geom, error)
 	family := "wkb"
 	switch kind {
@@ -408,6 +411,34 @@ func (c *child) ask(line string) (string, bool) {
 	}
 }
 
+// suspicious: a result that violates the property on the face of it (death of the worker, panic,
+// nil/nil, more than the Spec's allocation bound 64*len + 64 KiB resp. 128*len + 64 KiB for JSON text —
+// the constants of Spec.lean, used here ONLY to decide whether the line is run a second time alone).
+func suspicious(line, res string) bool {
+	f := strings.Fields(line)
+	if len(f) == 0 || f[0] == "batch" || f[0] == "hist" || f[0] == "gj" {
+		return false
+	}
+	first := strings.SplitN(res, " ", 2)[0]
+	if first == "oom" || first == "timeout" || strings.HasPrefix(first, "crash") || strings.HasPrefix(first, "panic:") ||
+		first == "nilnil" || strings.HasPrefix(first, "both:") || strings.HasSuffix(res, "| big") {
+		return true
+	}
+	size := (len(f[len(f)-1]) - 1) / 2
+	per := 64
+	if f[0] == "json" {
+		per = 128
+	}
+	for _, t := range strings.Fields(res) {
+		if strings.HasPrefix(t, "A=") {
+			var a int
+			fmt.Sscanf(t[2:], "%d", &a)
+			return a > per*size+65536
+		}
+	}
+	return false
+}
+
 func impl() {
 	in := bufio.NewReaderSize(os.Stdin, 1<<20)
 	out := bufio.NewWriterSize(os.Stdout, 1<<20)
@@ -436,6 +467,20 @@ func impl() {
 				deaths++
 			} else if strings.HasSuffix(res, "| big") {
 				deaths++ // > 16 MiB allocated for <= 64 KiB of input: a violation whatever the judge's constants
+			}
+			if suspicious(l, res) && res != "timeout" {
+				// the input, or the calls before it? Run the line again ALONE in a fresh process. If it does
+				// not fail there, the failure is carried by state from earlier calls: this line is not a
+				// self-contained failing input (the judge says DIFF ...-statedep; the `hist` lines carry
+				// whole histories on one line and are the replayable failing inputs for such defects).
+				c2 := startChild()
+				res2, alive2 := c2.ask(l)
+				if alive2 {
+					c2.kill()
+				}
+				if !suspicious(l, res2) {
+					res = "statedep:" + strings.SplitN(res, " ", 2)[0] + " " + res2
+				}
 			}
 			fmt.Fprintf(out, "%s => %s\n", l, res)
 			out.Flush()
